@@ -12,7 +12,7 @@
 //!    `turmoil::Sim` (one command batch per `Sim::step`), crash through
 //!    `Sim::crash` + `Sim::bounce`.
 //!
-//! case = {"id", "cfg": {mode, seed, lat_ns|null, cache: null|{page_size,max_pages}, nfiles,
+//! case = {"id", "cfg": {mode, seed, lat_ns|null, cache: null|{page_size,max_pages}, capacity: null|bytes, nfiles,
 //!                       tick_ns (sim)}, "script": [cmd..]}
 //! cmd (direct):
 //!   ["now", t_ns] | ["open", f] | ["close", k] | ["new", entries] | ["drop_ring", r] |
@@ -45,6 +45,9 @@ fn fs_config(cfg: &Value) -> FsConfig {
         c.io_latency()
             .min_latency(Duration::from_nanos(l))
             .max_latency(Duration::from_nanos(l));
+    }
+    if let Some(cap) = cfg.get("capacity").and_then(|c| c.as_u64()) {
+        c.capacity(cap);
     }
     if let Some(pc) = cfg.get("cache").filter(|v| !v.is_null()) {
         c.page_cache()
@@ -590,6 +593,9 @@ fn run_sim(case: &Value) -> Value {
         .simulation_duration(Duration::from_secs(3600));
     if let Some(l) = cfg["lat_ns"].as_u64() {
         b.fs().io_latency().min_latency(Duration::from_nanos(l)).max_latency(Duration::from_nanos(l));
+    }
+    if let Some(cap) = cfg.get("capacity").and_then(|c| c.as_u64()) {
+        b.fs().capacity(cap);
     }
     let mut sim = b.build();
     let nfiles = cfg["nfiles"].as_u64().unwrap_or(1);
